@@ -1723,7 +1723,8 @@ def oracle(c, out):
     if f[0] == "c13.rtspclt":
         # the upstream has said all it will say and closed its side: the session has to be over (Start failed, or the
         # session reported as ended) unless it waits for the GET_PARAMETER keep-alive, which takes a server that announced it
-        if out.endswith(" running") and b"GET_PARAMETER" not in tok_bytes(f[6]):
+        # (a header value may be glued from a line without colon: line breaks and blanks are ignored in the search)
+        if out.endswith(" running") and b"GET_PARAMETER" not in tok_bytes(f[6]).replace(b"\r", b"").replace(b"\n", b"").replace(b" ", b""):
             return (False, "the rtsp client session is neither over nor running a keep-alive: its read loop spins or its end was never reported")
         return (True, "")
     if f[0] == "c13.rtspcmd":
